@@ -8,13 +8,15 @@ Property theorems only; helper lemmas are in `Proofs/Lpm.lean` (laminarity, `Spe
 `LpmSweep.lean` (sweep invariant), `LpmRdb.lean` (abstract lookup theorem), `LpmConc.lean`,
 `LpmFamWF.lean`, `LpmFamMono.lean`, `LpmInner.lean` (the concrete family of ranges and W0–W3),
 `LpmStore.lean` (byte keys, `SeekForPrev`), `LpmRearr.lean`, `LpmFinal.lean` (assembly),
-`LpmCheck.lean` (verified table checker).
+`LpmCheck.lean` (verified table checker); for compiled data files (§6, §7): `Proofs/PipelineLoc.lean`, `Proofs/PipelineLocV2.lean`.
 -/
 import DnsVerif.Proofs.Lpm
 import DnsVerif.Proofs.LpmMap
 import DnsVerif.Proofs.LpmCdb
 import DnsVerif.Proofs.LpmFinal
 import DnsVerif.Proofs.LpmCheck
+import DnsVerif.Proofs.PipelineLoc
+import DnsVerif.Proofs.PipelineLocV2
 
 namespace DnsVerif.Props.C03
 open DnsVerif DnsVerif.Spec DnsVerif.Loc DnsVerif.Rearr DnsVerif.Codec DnsVerif.Lpm
@@ -344,6 +346,298 @@ whose predecessor is that key (here `::1:0:0:5/128`) gets an error -/
 theorem w3_error :
     (rangePointKVs w3Subnets).map (fun kvs => isErr (getLocationRdb (Store.ofKVs kvs)
       { ip16 := natToIP (2 ^ 48 + 5), ipLen4 := false, maskOnes := 128 } [0, 7])) = some true := by
+  decide +kernel
+
+open DnsVerif.Pipeline DnsVerif.PipelineLoc DnsVerif.PipelineProofs
+
+/-! ### 6. the pipeline: compiled data files
+
+`Pipeline.compile b svcb lines = some store` is the store the model compiler builds from a data
+file, `Pipeline.zoneOf lines = some z` the declared zone (records, maps, subnets) of the same file.
+The representation hypotheses of §2–§4 hold for the compiled store and `z.maps` / `z.subnets`
+(helper lemmas: `Proofs/PipelineLoc.lean`), for the v1 key layouts (CDB in both prefix-set modes,
+RocksDB v1); §7 does the v2 key layout. Decidable well-formedness of the file, each clause forced (witnesses below):
+* `LocIdsOK z`: no client-subnet map and no subnet carries map id `[0,0]` ("no map" to the server);
+* CDB (`FileWF (.cdb _)`): `LinesOK`, no record under the location tag `\000%` (`NoPctTag`: its key
+  can BE a subnet key), W1 in the weak form (`SubnetsW1`; inherited from `getLocationCdb_eq_lpm`,
+  not forced: the first declared of two equal-key subnets wins on both sides);
+* RocksDB (`FileWF .rdbV1`): W1 strict, W2, W3 (`SubnetsRdbWF`; W2, W3 forced by §5, W1 by
+  `w1_needed_rdb`; an IDENTICAL repetition of a `%` line is excluded by the strict form although the
+  table tolerates it). -/
+
+/-- **maps**: the compiled store represents the declared maps (`MapRepWF`, the hypothesis of
+`findMapV1_eq_mapFor`) — no well-formedness needed: under each map key the ids in file order -/
+theorem file_mapRep (b : Backend) (hb : (∃ sep, b = .cdb sep) ∨ b = .rdbV1) (svcb : SvcbFn)
+    (lines : List Bytes) (store : Store) (z : Zone)
+    (hc : compile b svcb lines = some store) (hz : zoneOf lines = some z) :
+    MapRepWF store z.maps :=
+  compile_mapRep b hb svcb lines store z hc hz
+
+/-- … hence `FindMap` on the compiled store is `Spec.mapFor` on the declared maps -/
+theorem file_findMap (b : Backend) (hb : (∃ sep, b = .cdb sep) ∨ b = .rdbV1) (svcb : SvcbFn)
+    (lines : List Bytes) (store : Store) (z : Zone)
+    (hc : compile b svcb lines = some store) (hz : zoneOf lines = some z)
+    (ecs : Bool) (q : List Bytes) (hq : WFName q) :
+    findMap b store (Name.pack q) (mtypeOf ecs) = .ok (mapFor z.maps ecs q) :=
+  findMap_file b hb svcb lines store z hc hz ecs q hq
+
+/-- **subnets, CDB**: the prefix-length sets and legacy `%` keys `compile (.cdb sep)` writes represent
+the declared subnets (`CdbRep` + `SubnetsWF`, the hypotheses of `getLocationCdb_eq_lpm`) -/
+theorem file_cdbRep (sep : Bool) (svcb : SvcbFn) (lines : List Bytes) (store : Store) (z : Zone)
+    (hc : compile (.cdb sep) svcb lines = some store) (hz : zoneOf lines = some z)
+    (hg : LinesOK lines) (hno : NoPctTag z) (hw1 : SubnetsW1 z.subnets) :
+    ∃ subs, z.subnets = subs.map declOf ∧ SubnetsWF subs ∧ CdbRep store subs :=
+  compile_cdbRep sep svcb lines store z hc hz hg hno hw1
+
+/-- … hence `GetLocationByMap` of the CDB driver on the compiled store is `Spec.lpm` on the declared
+subnets, in both prefix-set modes -/
+theorem file_getLocationCdb (sep : Bool) (svcb : SvcbFn) (lines : List Bytes) (store : Store) (z : Zone)
+    (hc : compile (.cdb sep) svcb lines = some store) (hz : zoneOf lines = some z)
+    (hg : LinesOK lines) (hno : NoPctTag z) (hw1 : SubnetsW1 z.subnets)
+    (c : ClientNet) (mapID : Bytes) (hmap : mapID.length = 2)
+    (hc16 : c.ip16.length = 16) (hc4 : c.ipLen4 = true → c.ip16.take 12 = Net.v4Prefix) :
+    getLocationCdb store sep c mapID =
+      match lpm z.subnets mapID (isIPv4 c) (ipToNat c.ip16) (reqLen c) with
+      | some w => .ok (some w.loc, w.ones)
+      | none => .ok (none, 0) := by
+  obtain ⟨subs, hs, hwf, hrep⟩ := file_cdbRep sep svcb lines store z hc hz hg hno hw1
+  rw [hs]
+  exact getLocationCdb_eq_lpm hrep hwf sep c mapID hmap hc16 hc4
+
+/-- **subnets, RocksDB**: for every map with declared subnets `S`, the range points the accumulator
+writes are those of `Rearrange()` on `S`, `S` satisfies W0–W3, and the compiled store holds under
+`marker ++ map` exactly these points (`RdbRep`, the hypothesis of `rearrange_lpm_store`) -/
+theorem file_rdbRep (svcb : SvcbFn) (lines : List Bytes) (store : Store) (z : Zone)
+    (hc : compile .rdbV1 svcb lines = some store) (hz : zoneOf lines = some z)
+    (hwf : SubnetsRdbWF z.subnets) (m : Bytes) (hm : ∃ s ∈ z.subnets, s.mapID = m) :
+    SubsWF (z.subnets.filter fun s => s.mapID = m) ∧
+      ∃ P, rearrange (addAll (z.subnets.filter fun s => s.mapID = m)) = some P ∧ RdbRep store m P := by
+  obtain ⟨subs, hs, hok, hwf', htab, _⟩ := store_rdb_prefix svcb lines store z hc hz hwf
+  obtain ⟨s, hsm, rfl⟩ := hm
+  rw [hs] at hsm
+  obtain ⟨x, hx, rfl⟩ := List.mem_map.1 hsm
+  obtain ⟨P, hP, _, hrep⟩ := htab (declOf x).mapID ((mem_mapIds subs _).2 ⟨x, hx, rfl⟩)
+  rw [hs, ← filter_declOf]
+  exact ⟨subsWF_filter subs hok hwf' _, P, hP, hrep⟩
+
+/-- … hence `GetLocationByMap` of the RocksDB driver on the compiled store is `Spec.lpm` on the
+declared subnets, for every 2-byte map id (with or without subnets) and every W4 client -/
+theorem file_getLocationRdb (svcb : SvcbFn) (lines : List Bytes) (store : Store) (z : Zone)
+    (hc : compile .rdbV1 svcb lines = some store) (hz : zoneOf lines = some z)
+    (hwf : SubnetsRdbWF z.subnets) (m : Bytes) (hm : m.length = 2) (c : ClientNet)
+    (h16 : (maskedClientIP c).length = 16)
+    (hal : ipToNat (maskedClientIP c) % 2 ^ (128 - reqOf c) = 0) :
+    getLocationRdb store c m = .ok (lpmRes z.subnets m (ipToNat (maskedClientIP c)) (reqOf c)) :=
+  getLocationRdb_file svcb lines store z hc hz hwf m hm c h16 hal
+
+/-- **file_located_as_declared**: for every compiled data file that is well formed for its backend
+(`FileWF`, `LocIdsOK`), every query name with labels of 1…255 bytes, every 16-byte resolver address
+and every regular client-subnet option (or none), the model's `FindLocation` on the compiled store
+succeeds and returns the scope and the location id `Spec.locate` prescribes on the declared zone —
+the two things `Driver/Serve.lean` (`locOp`, `specOne`) compares. -/
+theorem file_located_as_declared (b : Backend) (svcb : SvcbFn) (lines : List Bytes) (store : Store)
+    (z : Zone) (hc : compile b svcb lines = some store) (hz : zoneOf lines = some z)
+    (hwf : FileWF b lines z) (hids : LocIdsOK z) (q : List Bytes) (hq : WFName q)
+    (ecs : Option Ecs) (he : ∀ e, ecs = some e → EcsRegular e)
+    (resolver : List UInt8) (hr : resolver.length = 16) :
+    ∃ loc, findLocationTop b store (Name.pack q) ecs resolver =
+        .ok ((locate z q (clientOfQuery resolver ecs)).scope, loc) ∧
+      loc.locID = (locate z q (clientOfQuery resolver ecs)).loc :=
+  findLocationTop_file b svcb lines store z hc hz hwf hids q hq ecs he resolver hr
+
+/-! non-vacuity: `8ex.com,cd` `Mex.com,ab` `%xy,10.0.0.0/8,cd` `%x2,10.1.0.0/16,cd`
+`%zz,2001:db8::/32,cd` `%aa,0.0.0.0/0,ab` `%bb,::/0,ab` -/
+
+def exFile : List Bytes :=
+  [[56, 101, 120, 46, 99, 111, 109, 44, 99, 100],
+   [77, 101, 120, 46, 99, 111, 109, 44, 97, 98],
+   [37, 120, 121, 44, 49, 48, 46, 48, 46, 48, 46, 48, 47, 56, 44, 99, 100],
+   [37, 120, 50, 44, 49, 48, 46, 49, 46, 48, 46, 48, 47, 49, 54, 44, 99, 100],
+   [37, 122, 122, 44, 50, 48, 48, 49, 58, 100, 98, 56, 58, 58, 47, 51, 50, 44, 99, 100],
+   [37, 97, 97, 44, 48, 46, 48, 46, 48, 46, 48, 47, 48, 44, 97, 98],
+   [37, 98, 98, 44, 58, 58, 47, 48, 44, 97, 98]]
+
+/-- `ex.com` -/
+def exQ : List Bytes := [[101, 120], [99, 111, 109]]
+/-- client subnet 10.1.2.0/24 -/
+def exEcs4 : Ecs := ⟨1, 24, 0, [10, 1, 2, 0]⟩
+/-- client subnet 2001:db9::/32 -/
+def exEcs6 : Ecs := ⟨2, 32, 0, [0x20, 1, 0xd, 0xb9, 0, 0, 0, 0, 0, 0, 0, 0, 0, 0, 0, 0]⟩
+/-- resolver 1.2.3.4 -/
+def exRes : List UInt8 := Net.v4Prefix ++ [1, 2, 3, 4]
+
+/-- the value of a successful outcome -/
+def okVal {α : Type} : Res α → Option α
+  | .ok a => some a
+  | _ => none
+
+/-- the file compiles on every v1 backend and is well formed for each of them -/
+example : (zoneOf exFile).map (fun z => (decide (FileWF (.cdb false) exFile z),
+      decide (FileWF (.cdb true) exFile z), decide (FileWF .rdbV1 exFile z), decide (LocIdsOK z))) =
+      some (true, true, true, true) ∧
+    (compile (.cdb false) noSvcb exFile).isSome = true ∧ (compile (.cdb true) noSvcb exFile).isSome = true ∧
+    (compile .rdbV1 noSvcb exFile).isSome = true ∧
+    WFName exQ ∧ EcsRegular exEcs4 ∧ EcsRegular exEcs6 ∧ exRes.length = 16 := by decide +kernel
+
+/-- 10.1.2.0/24 gets the /16 (`x2`, scope 16); 2001:db9::/32 matches nothing: default scope 48 and the
+resolver's location (`aa` through the resolver map); no option: no scope, the resolver's location -/
+example : (zoneOf exFile).map (fun z => [locate z exQ (clientOfQuery exRes (some exEcs4)),
+      locate z exQ (clientOfQuery exRes (some exEcs6)), locate z exQ (clientOfQuery exRes none)]) =
+    some [⟨[120, 50], some 16⟩, ⟨[97, 97], some 48⟩, ⟨[97, 97], none⟩] := by decide +kernel
+
+example : ([Backend.cdb false, .cdb true, .rdbV1].map fun b => (compile b noSvcb exFile).map fun st =>
+      [okVal (findLocationTop b st (Name.pack exQ) (some exEcs4) exRes),
+       okVal (findLocationTop b st (Name.pack exQ) (some exEcs6) exRes),
+       okVal (findLocationTop b st (Name.pack exQ) none exRes)]) =
+    List.replicate 3 (some [some (some 16, ⟨[99, 100], 112, [120, 50]⟩),
+      some (some 48, ⟨[97, 98], 96, [97, 97]⟩), some (none, ⟨[97, 98], 96, [97, 97]⟩)]) := by
+  decide +kernel
+
+/-! the well-formedness clauses are forced -/
+
+/-- `8ex.com` (client-subnet map with the empty id `[0,0]`) and `%xy,10.0.0.0/8` (subnet of map
+`[0,0]`): the specification locates 10.1.2.0/24 at `xy` with scope 8, the server treats map id `[0,0]`
+as "no map" (scope 0, resolver's location) — `LocIdsOK`, first clause -/
+theorem locIds_needed_map :
+    let f : List Bytes := [[56, 101, 120, 46, 99, 111, 109], [37, 120, 121, 44, 49, 48, 46, 48, 46, 48, 46, 48, 47, 56]]
+    (zoneOf f).map (fun z => (decide (FileWF (.cdb true) f z), decide (FileWF .rdbV1 f z), decide (LocIdsOK z),
+      locate z exQ (clientOfQuery exRes (some exEcs4)))) = some (true, true, false, ⟨[120, 121], some 8⟩) ∧
+    ([Backend.cdb true, .rdbV1].map fun b => (compile b noSvcb f).map fun st =>
+      okVal (findLocationTop b st (Name.pack exQ) (some exEcs4) exRes)) =
+      List.replicate 2 (some (some (some 0, ⟨[0, 0], 0, [0, 0]⟩))) := by decide +kernel
+
+/-- `%xy,0.0.0.0/0` alone (a subnet of map `[0,0]`, no map at all): the lookups for a name without
+map run on map id `[0,0]` and find the subnet; the specification says "no location" — `LocIdsOK`,
+second clause -/
+theorem locIds_needed_subnet :
+    let f : List Bytes := [[37, 120, 121, 44, 48, 46, 48, 46, 48, 46, 48, 47, 48]]
+    (zoneOf f).map (fun z => (decide (FileWF (.cdb true) f z), decide (FileWF .rdbV1 f z), decide (LocIdsOK z),
+      locate z exQ (clientOfQuery exRes none))) = some (true, true, false, ⟨[0, 0], none⟩) ∧
+    ([Backend.cdb true, .rdbV1].map fun b => (compile b noSvcb f).map fun st =>
+      okVal (findLocationTop b st (Name.pack exQ) none exRes)) =
+      List.replicate 2 (some (some (none, ⟨[0, 0], 96, [120, 121]⟩))) := by decide +kernel
+
+/-- `%xy,10.0.0.0/8,cd` and `%x3,10.0.0.0/8,cd` (W1 violated): the range-point table answers with the
+LAST declared location, the specification (and the CDB) with the first -/
+theorem w1_needed_rdb :
+    let f : List Bytes := [[56, 101, 120, 46, 99, 111, 109, 44, 99, 100],
+      [37, 120, 121, 44, 49, 48, 46, 48, 46, 48, 46, 48, 47, 56, 44, 99, 100],
+      [37, 120, 51, 44, 49, 48, 46, 48, 46, 48, 46, 48, 47, 56, 44, 99, 100]]
+    (zoneOf f).map (fun z => (decide (SubnetsRdbWF z.subnets), decide (LocIdsOK z),
+      locate z exQ (clientOfQuery exRes (some exEcs4)))) = some (false, true, ⟨[120, 121], some 8⟩) ∧
+    ([Backend.cdb true, .rdbV1].map fun b => (compile b noSvcb f).map fun st =>
+      okVal (findLocationTop b st (Name.pack exQ) (some exEcs4) exRes)) =
+      [some (some (some 8, ⟨[99, 100], 104, [120, 121]⟩)), some (some (some 8, ⟨[99, 100], 104, [120, 51]⟩))] := by
+  decide +kernel
+
+/-- `8ex.com,\021x`, `%bb,::/0,zz` and the record `+x\000…\000,1.2.3.4,60,,\000%` (a 17-byte label,
+location tag `\000%`): the record's CDB key `\000% ++ pack owner` IS the subnet key of map `\021x`,
+network `::`, length 0, so an IPv6 client of `ex.com` is "located" at the first two bytes of the
+record's row; everything but `NoPctTag` holds -/
+theorem noPctTag_needed :
+    let f : List Bytes := [[56, 101, 120, 46, 99, 111, 109, 44, 92, 48, 50, 49, 120],
+      [37, 98, 98, 44, 58, 58, 47, 48, 44, 122, 122],
+      [43, 120, 92, 48, 48, 48, 92, 48, 48, 48, 92, 48, 48, 48, 92, 48, 48, 48, 92, 48, 48, 48, 92, 48, 48, 48,
+       92, 48, 48, 48, 92, 48, 48, 48, 92, 48, 48, 48, 92, 48, 48, 48, 92, 48, 48, 48, 92, 48, 48, 48, 92, 48,
+       48, 48, 92, 48, 48, 48, 92, 48, 48, 48, 92, 48, 48, 48, 44, 49, 46, 50, 46, 51, 46, 52, 44, 54, 48, 44,
+       44, 92, 48, 48, 48, 37]]
+    (zoneOf f).map (fun z => (decide (LinesOK f), decide (NoPctTag z), decide (SubnetsW1 z.subnets),
+      decide (LocIdsOK z), locate z exQ (clientOfQuery exRes (some exEcs6)))) =
+      some (true, false, true, true, ⟨[0, 0], some 48⟩) ∧
+    (compile (.cdb true) noSvcb f).map (fun st =>
+      okVal (findLocationTop (.cdb true) st (Name.pack exQ) (some exEcs6) exRes)) =
+      some (some (some 0, ⟨[17, 120], 0, [0, 1]⟩)) := by decide +kernel
+
+/-- an IPv4-mapped address in a family-2 option (`::ffff:10.1.2.0/120`): the server treats the client
+as IPv4 (scope 104 on the 128-bit scale), the specification as IPv6 — `EcsRegular` -/
+theorem ecsRegular_needed :
+    let f : List Bytes := [[56, 101, 120, 46, 99, 111, 109, 44, 99, 100],
+      [37, 120, 121, 44, 49, 48, 46, 48, 46, 48, 46, 48, 47, 56, 44, 99, 100]]
+    let e : Ecs := ⟨2, 120, 0, Net.v4Prefix ++ [10, 1, 2, 0]⟩
+    (zoneOf f).map (fun z => (decide (FileWF (.cdb true) f z), decide (FileWF .rdbV1 f z), decide (LocIdsOK z),
+      decide (EcsRegular e), locate z exQ (clientOfQuery exRes (some e)))) =
+      some (true, true, true, false, ⟨[0, 0], some 48⟩) ∧
+    ([Backend.cdb true, .rdbV1].map fun b => (compile b noSvcb f).map fun st =>
+      okVal (findLocationTop b st (Name.pack exQ) (some e) exRes)) =
+      List.replicate 2 (some (some (some 104, ⟨[99, 100], 104, [120, 121]⟩))) := by decide +kernel
+
+open DnsVerif.PipelineLocV2
+
+/-! ### 7. the pipeline, v2 key layout (`compile .rdbV2`)
+
+Same statements for the third storage configuration. `FindMap` is the closest-key search
+`findMapInSortedData`; through C02's `findMapSorted_eq_spec` it computes `Spec.mapFor` once the compiled
+store satisfies `RepMapsV2`. `FileWFV2`: map owners with labels shorter than 256 bytes
+(`MapLinesV2OK`, forced: `mapLinesV2OK_needed`), at most one map per (type, owner, wildcard flag)
+(`MapsUnique`, C02's hypothesis; forced for `FindMap` itself — `mapsUnique_needed_v2` — though the two
+bytes `findLocation` copies are still the first declared id), W1–W3 on the subnets. -/
+
+/-- the compiled v2 store represents the declared maps in the sense of C02 -/
+theorem file_repMapsV2 (svcb : SvcbFn) (lines : List Bytes) (store : Store) (z : Zone)
+    (hc : compile .rdbV2 svcb lines = some store) (hz : zoneOf lines = some z) (hok : MapLinesV2OK lines)
+    (hu : MapsUnique z.maps) (ecs : Bool) :
+    RevOrder.RepMapsV2 store (mtypeOf ecs) (mapsFn z.maps ecs) :=
+  compile_repMapsV2 svcb lines store z hc hz hok hu ecs
+
+/-- … hence `findMapInSortedData` on it is `Spec.mapFor`, for query names of at most 255 octets -/
+theorem file_findMap_v2 (svcb : SvcbFn) (lines : List Bytes) (store : Store) (z : Zone)
+    (hc : compile .rdbV2 svcb lines = some store) (hz : zoneOf lines = some z) (hok : MapLinesV2OK lines)
+    (hu : MapsUnique z.maps) (ecs : Bool) (q : List Bytes) (hq : WFName q)
+    (hlen : (Name.pack q).length ≤ 256) :
+    findMap .rdbV2 store (Name.pack q) (mtypeOf ecs) = .ok (mapFor z.maps ecs q) :=
+  findMap_v2_file svcb lines store z hc hz hok hu ecs q hq hlen
+
+/-- `GetLocationByMap` on the compiled v2 store is `Spec.lpm` on the declared subnets -/
+theorem file_getLocationRdb_v2 (svcb : SvcbFn) (lines : List Bytes) (store : Store) (z : Zone)
+    (hc : compile .rdbV2 svcb lines = some store) (hz : zoneOf lines = some z) (hok : MapLinesV2OK lines)
+    (hwf : SubnetsRdbWF z.subnets) (m : Bytes) (hm : m.length = 2) (c : ClientNet)
+    (h16 : (maskedClientIP c).length = 16)
+    (hal : ipToNat (maskedClientIP c) % 2 ^ (128 - reqOf c) = 0) :
+    getLocationRdb store c m = .ok (lpmRes z.subnets m (ipToNat (maskedClientIP c)) (reqOf c)) :=
+  getLocationRdb_v2_file svcb lines store z hc hz hok hwf m hm c h16 hal
+
+/-- **file_located_as_declared**, v2 key layout -/
+theorem file_located_as_declared_v2 (svcb : SvcbFn) (lines : List Bytes) (store : Store) (z : Zone)
+    (hc : compile .rdbV2 svcb lines = some store) (hz : zoneOf lines = some z) (hwf : FileWFV2 lines z)
+    (hids : LocIdsOK z) (q : List Bytes) (hq : WFName q) (hlen : (Name.pack q).length ≤ 256)
+    (ecs : Option Ecs) (he : ∀ e, ecs = some e → EcsRegular e)
+    (resolver : List UInt8) (hr : resolver.length = 16) :
+    ∃ loc, findLocationTop .rdbV2 store (Name.pack q) ecs resolver =
+        .ok ((locate z q (clientOfQuery resolver ecs)).scope, loc) ∧
+      loc.locID = (locate z q (clientOfQuery resolver ecs)).loc :=
+  findLocationTop_v2_file svcb lines store z hc hz hwf hids q hq hlen ecs he resolver hr
+
+/-- non-vacuity: the example file of §6 compiles and is well formed for the v2 layout, and the three
+queries evaluate as prescribed -/
+example : (zoneOf exFile).map (fun z => (decide (FileWFV2 exFile z), decide (LocIdsOK z))) = some (true, true) ∧
+    (compile .rdbV2 noSvcb exFile).isSome = true ∧ (Name.pack exQ).length ≤ 256 ∧
+    (compile .rdbV2 noSvcb exFile).map (fun st =>
+      [okVal (findLocationTop .rdbV2 st (Name.pack exQ) (some exEcs4) exRes),
+       okVal (findLocationTop .rdbV2 st (Name.pack exQ) (some exEcs6) exRes),
+       okVal (findLocationTop .rdbV2 st (Name.pack exQ) none exRes)]) =
+    some [some (some 16, ⟨[99, 100], 112, [120, 50]⟩), some (some 48, ⟨[97, 98], 96, [97, 97]⟩),
+      some (none, ⟨[97, 98], 96, [97, 97]⟩)] := by decide +kernel
+
+/-- `8ex.com,cd` and `8ex.com,ef`: the v2 store holds both ids under one key and
+`findMapInSortedData` returns the raw multi-value bytes minus the first chunk header (`cd`, the header
+of the second chunk, `ef`); `Spec.mapFor` (and the v1 search) the first id -/
+theorem mapsUnique_needed_v2 :
+    let f : List Bytes := [[56, 101, 120, 46, 99, 111, 109, 44, 99, 100], [56, 101, 120, 46, 99, 111, 109, 44, 101, 102]]
+    (zoneOf f).map (fun z => (decide (MapLinesV2OK f), decide (MapsUnique z.maps), mapFor z.maps true exQ)) =
+      some (true, false, some [99, 100]) ∧
+    (compile .rdbV2 noSvcb f).map (fun st => okVal (findMap .rdbV2 st (Name.pack exQ) [0, 0x38])) =
+      some (some (some [99, 100, 2, 0, 0, 0, 101, 102])) := by decide +kernel
+
+/-- a map owner with a 300-byte label: the v1 key (and the specification) carries the label cut to
+`300 mod 256 = 44` bytes, so the name `a…a.com` (44 × `a`) has the map; the v2 key carries the whole
+label after the length byte 44, and the closest-key search finds no map -/
+theorem mapLinesV2OK_needed :
+    let f : List Bytes := [[56] ++ List.replicate 300 97 ++ [46, 99, 111, 109, 44, 99, 100]]
+    let q : List Bytes := [List.replicate 44 97, [99, 111, 109]]
+    (zoneOf f).map (fun z => (decide (MapLinesV2OK f), decide (MapsUnique z.maps), mapFor z.maps true q)) =
+      some (false, true, some [99, 100]) ∧
+    ([Backend.rdbV1, .rdbV2].map fun b => (compile b noSvcb f).map fun st =>
+      okVal (findMap b st (Name.pack q) [0, 0x38])) = [some (some (some [99, 100])), some (some none)] := by
   decide +kernel
 
 end DnsVerif.Props.C03
